@@ -28,24 +28,32 @@ Theorem C14_spec : forall (V : Type) (dec : bytes -> option V) r s, benign s ->
     /\ r_max r' = r_max r /\ s_data s' = spec_rest (S (length (s_data s))) (r_max r) (s_data s).
 Proof. exact read_stream_spec. Qed.
 
-(* The writer hands be32 |p| ++ p to the inner writer in a single write_all and returns |p|. *)
-Theorem C14_frame : forall ovf w p,
-  len p <= w_max w -> len p + 4 < 4294967296 ->
-  write_with ovf w (EncOk p) true = (WOk (len p), mkwriter (frame_of p) (w_max w), [be 4 (len p) ++ p]).
+(* The writer hands be32 |p| ++ p to the inner writer in a single write_all and returns |p|.  |p| < 2^32 is
+   implied by |p| <= max_len, max_len being set from a u32 (C14_frame_u32). *)
+Theorem C14_frame : forall w p,
+  len p <= w_max w -> len p < 4294967296 ->
+  write_with w (EncOk p) true = (WOk (len p), mkwriter (frame_of p) (w_max w), [be 4 (len p) ++ p]).
 Proof. exact write_with_frame. Qed.
+Theorem C14_frame_u32 : forall w p,
+  len p <= w_max w -> w_max w < 4294967296 ->
+  write_with w (EncOk p) true = (WOk (len p), mkwriter (frame_of p) (w_max w), [be 4 (len p) ++ p]).
+Proof. exact write_with_frame_u32. Qed.
+(* The writer never panics (the usize `len - 4` cannot underflow; writer.rs:58-61). *)
+Theorem C14_writer_no_panic : forall w e ok, fst (fst (write_with w e ok)) <> WPanic.
+Proof. exact write_with_no_panic. Qed.
 
 (* An over-long value is refused with InvalidLen and an encoding failure with Error::Encode; nothing reaches the sink. *)
-Theorem C14_reject_len : forall ovf w p ok,
-  w_max w < len p -> exists b, write_with ovf w (EncOk p) ok = (WErr IoInvalidLen, mkwriter b (w_max w), []).
+Theorem C14_reject_len : forall w p ok,
+  w_max w < len p -> exists b, write_with w (EncOk p) ok = (WErr IoInvalidLen, mkwriter b (w_max w), []).
 Proof. exact write_with_too_long. Qed.
-Theorem C14_reject_enc : forall ovf w part ok,
-  exists b, write_with ovf w (EncFail part) ok = (WErr IoEncode, mkwriter b (w_max w), []).
+Theorem C14_reject_enc : forall w part ok,
+  exists b, write_with w (EncFail part) ok = (WErr IoEncode, mkwriter b (w_max w), []).
 Proof. exact write_with_enc_fail. Qed.
 
 (* Whatever the value: at most one chunk reaches the sink per call, it is at most max_len + 4 bytes long, and
    the call returns its payload length. *)
-Theorem C14_writer_bound : forall ovf w e ok r w' cs,
-  write_with ovf w e ok = (r, w', cs) ->
+Theorem C14_writer_bound : forall w e ok r w' cs,
+  write_with w e ok = (r, w', cs) ->
   w_max w' = w_max w /\ (cs = [] \/ exists b, cs = [b] /\ len b <= w_max w + 4 /\ r = WOk (len b - 4)).
 Proof. exact write_with_bounded. Qed.
 
@@ -87,28 +95,17 @@ Proof. exact fio_alloc. Qed.
 (* Writer and reader together, for any codec whose decoder inverts its encoder. *)
 Theorem C14_end_to_end : forall (V : Type) (enc : V -> enc_res) (dec : bytes -> option V),
   (forall v p, enc v = EncOk p -> dec p = Some v) ->
-  forall ovf max vs ps sched wb rb pk c,
+  forall max vs ps sched wb rb pk c,
   Forall2 (fun v p => enc v = EncOk p) vs ps ->
-  Forall (fun p => len p <= max /\ len p + 4 < 4294967296) ps ->
+  Forall (fits max) ps ->
   Forall tok_ok sched ->
   exists w' r' s',
-    write_seq ovf (mkwriter wb max) (map (fun v => (enc v, true)) vs)
+    write_seq (mkwriter wb max) (map (fun v => (enc v, true)) vs)
       = (map (fun p => WOk (len p)) ps, w', map frame_of ps)
     /\ read_stream V dec (mkreader rb max pk) (mksrc (concat (map frame_of ps)) sched c)
       = (map OVal vs ++ [OEnd], r', s')
     /\ s_data s' = [].
 Proof. exact fio_e2e. Qed.
-
-(* The hypothesis |p| + 4 < 2^32 of C14_frame cannot be dropped for a build with overflow checks:
-   `len as u32 - 4` (writer.rs:61) panics for payloads of 2^32-4 .. 2^32-1 bytes admitted by max_len = u32::MAX. *)
-Theorem C14_frame_debug_refuted :
-  exists w p, len p <= w_max w /\ fst (fst (write_with true w (EncOk p) true)) = WPanic.
-Proof. exact fio_write_debug_refuted. Qed.
-(* Without overflow checks the wrapping subtraction yields the right prefix for every payload a u32 max_len admits. *)
-Theorem C14_frame_release : forall w p,
-  len p <= w_max w -> w_max w < 4294967296 ->
-  write_with false w (EncOk p) true = (WOk (len p), mkwriter (frame_of p) (w_max w), [be 4 (len p) ++ p]).
-Proof. exact write_with_frame_release. Qed.
 
 Print Assumptions C14_roundtrip.
 Print Assumptions C14_spec.
@@ -121,5 +118,5 @@ Print Assumptions C14_resync.
 Print Assumptions C14_invalid_len.
 Print Assumptions C14_alloc.
 Print Assumptions C14_end_to_end.
-Print Assumptions C14_frame_debug_refuted.
-Print Assumptions C14_frame_release.
+Print Assumptions C14_frame_u32.
+Print Assumptions C14_writer_no_panic.
